@@ -50,7 +50,13 @@ TXT = 'abcdefghxyzABC0123456789.,;:'
 FMT = ['textbf', 'emph', 'textit', 'text', 'textrm', 'textsc', 'mathrm']
 SYM = ['alpha', 'beta', 'Gamma', 'infty', 'times', 'ldots', 'S', 'ae', 'LaTeX', 'zzunknown', 'cdot', 'to', 'phi', 'ell',
        'epsilon']
-ACC = ["'", '`', '"', '^', '~', 'c', 'v', 'hat', 'bar', 'vec', 'dot', 'tilde']
+ACC = ["'", '`', '"', '^', '~', 'c', 'v', 'hat', 'bar', 'vec', 'dot', 'tilde', '=', '.', 'u', 'H', 'r', 'k', 'b', 'd',
+       'check', 'breve', 'acute', 'grave', 'ddot']
+# accent macro -> combining character, as LaTeX defines them (written down here; NOT read from the converter's table)
+ACC_TABLE = {"'": '\u0301', '`': '\u0300', '"': '\u0308', 'c': '\u0327', '^': '\u0302', '~': '\u0303', 'H': '\u030b',
+             'k': '\u0328', '=': '\u0304', 'b': '\u0331', '.': '\u0307', 'd': '\u0323', 'r': '\u030a', 'u': '\u0306',
+             'v': '\u030c', 'vec': '\u20d7', 'dot': '\u0307', 'hat': '\u0302', 'check': '\u030c', 'breve': '\u0306',
+             'acute': '\u0301', 'grave': '\u0300', 'tilde': '\u0303', 'bar': '\u0305', 'ddot': '\u0308'}
 ACCSYM = ['alpha', 'phi', 'ell', 'epsilon', 'beta', 'Gamma', 'i', 'j', 'i', 'in', 'ne', 'o', 'ae']      # symbol macros used as accent arguments
 SPC = ['~', '--', '---', '``', "''", '&']
 CLOSE = {'$': '$', '\\(': '\\)', '$$': '$$', '\\[': '\\]'}
@@ -202,7 +208,7 @@ def table():
         import pylatexenc.latex2text._defaultspecs as D
         db = get_default_latex_context_db()
         _tab['db'] = db
-        _tab['acc'] = dict(D.unicode_accents_list)
+        _tab['acc'] = dict(ACC_TABLE)
     return _tab
 
 
